@@ -407,7 +407,14 @@ func c03Judge(src []byte) (sig, what string) {
 					}
 					// go/printer's doc-comment formatter also turns `` and '' into typographic quotes
 					c = strings.NewReplacer("``", "\"", "''", "\"", "\u201c", "\"", "\u201d", "\"").Replace(c)
-					m[strings.Join(strings.Fields(strings.ReplaceAll(c, "//", "// ")), "")]++
+					q := strings.Join(strings.Fields(strings.ReplaceAll(c, "//", "// ")), "")
+					// ... and rewrites the list markers * + and the bullet to "-"
+					for _, mk := range []string{"//*", "//+", "//\u2022"} {
+						if strings.HasPrefix(q, mk) {
+							q = "//-" + strings.TrimPrefix(q, mk)
+						}
+					}
+					m[q]++
 				}
 				return m
 			}
